@@ -166,9 +166,9 @@ func discharge(f *FnVC, o dischargeOpts, stats *runStats) {
 			if !ob.Cover && ob.SplitTerm == "" && ob.Blk >= 0 && f.fn != nil && len(f.fn.Blocks) > 3 {
 				// first attempt on the slice of facts that can influence the obligation's block (sound: fewer assumptions)
 				keep := f.ancestors(ob.Blk)
-				if len(keep) < len(f.fn.Blocks) {
+				{
 					sfile := filepath.Join(o.dir, fmt.Sprintf("%s_%03d_sl.smt2", sanitize(f.key), ob.ID))
-					os.WriteFile(sfile, []byte(f.scriptForSel(ob, f.scriptHeadSel(true, keep), "", keep)), 0o644)
+					os.WriteFile(sfile, []byte(f.scriptForSel(ob, f.scriptHeadSel(true, keep, ob), "", keep)), 0o644)
 					r := runSolver(context.Background(), solvers[0], sfile, minInt(3, o.timeoutS), o.seed)
 					stats.add(r.ms)
 					if r.verdict == "unsat" {
